@@ -404,6 +404,45 @@ let op_san_line (toks : string list) : string =
    with Exit -> ());
   String.concat " ; " (List.rev !out)
 
+(* ---------- C18 / C19 Polyglot ---------- *)
+let op_pghash (rest : string) : string =
+  let (fen, _) = split_game rest in
+  with_fen fen (fun p -> hex_of_n (M.pg_spec_hash p))
+let op_pghash_alg (rest : string) : string =
+  let (fen, _) = split_game rest in
+  with_fen fen (fun p -> hex_of_n (M.pg_engine_hash (M.rep_of_position zt p)))
+
+let bytes_of_hex (hb : string) : M.n list =
+  let n = String.length hb / 2 in
+  List.init n (fun i -> n_of_int (int_of_string ("0x" ^ String.sub hb (2 * i) 2)))
+
+let op_book (args : string list) : string =
+  match args with
+  | hb :: _ ->
+    let es = M.read_book (bytes_of_hex (if hb = "-" then "" else hb)) in
+    let keys = List.sort_uniq (fun a b -> compare (Int64.sub (int64_of_n a) Int64.min_int) (Int64.sub (int64_of_n b) Int64.min_int))
+        (List.map (fun e -> e.M.e_key) es) in
+    string_of_int (List.length keys) ^
+    String.concat "" (List.map (fun k ->
+        " " ^ hex_of_n k ^ ":" ^ String.concat "," (List.map (fun (m, w) -> pi m ^ "/" ^ pi w) (M.lookup es k))) keys)
+  | _ -> "BAD-ARGS"
+
+(* pickm <draws,hex,...> | w1 w2 ... : the model's choice for each draw, and the best index *)
+let op_pickm (rest : string) : string =
+  let (ds, ws) = split_game rest in
+  let l = List.mapi (fun i w ->
+      let from = i mod 64 and too = 63 - (i mod 64) in
+      (M.create_promotion (n_of_int from) (n_of_int too) M.N0, n_of_int (int_of_string w))) ws in
+  let mv i = match List.nth_opt l (int_of_nat i) with Some (m, _) -> pi m | None -> "OOB" in
+  let one d = match M.random_index l (n_of_hex d) with None -> d ^ ":0" | Some i -> d ^ ":" ^ mv i in
+  String.concat " " (List.map one (words ds)) ^ (if ds = "" then "" else " ") ^ "best:" ^ mv (M.best_index l)
+
+let op_pgdecode (rest : string) : string =
+  let (fen, codes) = split_game rest in
+  with_fen fen (fun p ->
+      let s = M.rep_of_position zt p in
+      String.concat " " (List.map (fun c -> pi (M.decode_move (n_of_int (int_of_string c)) (fun sq -> M.piece_at s sq))) codes))
+
 (* ---------- model-driven random games ---------- *)
 
 (* playout <seed> <plies> <bias> <fen> : random legal game; bias (0..9) favours special moves *)
@@ -458,6 +497,11 @@ let dispatch (line : string) : string =
      | "g_rep" -> run_rep_game (rest_after line 1)
      | "walk" -> op_walk (rest_after line 1)
      | "g_key" -> run_key_game (rest_after line 1)
+     | "pghash" -> op_pghash (rest_after line 1)
+     | "pghash_alg" -> op_pghash_alg (rest_after line 1)
+     | "book" -> op_book args
+     | "pickm" -> op_pickm (rest_after line 1)
+     | "pgdecode" -> op_pgdecode (rest_after line 1)
      | "g_san" -> run_game (rest_after line 1) obs_san
      | "san_parse" -> op_san_parse (rest_after line 1)
      | "san_line" -> op_san_line args
